@@ -137,7 +137,7 @@ func runMutant(prop, name string) int {
 		if m.Rule != "" && r.ID != m.Rule {
 			continue
 		}
-		res := r.Run(prog)
+		res := runWithRoles(r, prog)
 		res.DedupKeys()
 		for _, o := range res.Obligations {
 			if o.Status == report.Violation || o.Status == report.Undecided {
